@@ -41,6 +41,9 @@ pub enum Site {
     AfterAtomic,
     /// Right after a lock was released
     AfterLock,
+    /// Inside a lock, right after it was acquired: a scheduler that keeps other threads away from
+    /// lock acquisitions until `ExitCritical` may deschedule the holder here
+    LockHeld,
     /// Entering a region in which the thread must not be descheduled
     EnterCritical,
     /// Leaving such a region
@@ -333,7 +336,8 @@ pub fn snapshot(unimock: &Unimock) -> Snapshot {
             .collect(),
         errors: shared
             .panic_reasons
-            .verif_peek(|reasons| reasons.iter().map(|error| error.to_string()).collect()),
+            .verif_peek(|reasons| reasons.iter().map(|error| error.to_string()).collect())
+            .unwrap_or_else(|| crate::alloc::vec![String::from("<error list locked>")]),
         strong_count: crate::alloc::Arc::strong_count(shared),
     }
 }
